@@ -20,6 +20,7 @@ THEOREMS = ["GitAi.Sys.blame_matches_ghost", "GitAi.Sys.rewrite_preserves_attrib
             "GitAi.Sys.replayR_nil", "GitAi.Sys.regression_agent_resolution_line_credited",
             "GitAi.Sys.resolution_line_credit_partial", "GitAi.Sys.witness_agent_resolution_line_lost",
             "GitAi.Sys.regression_block_of_several_authors", "GitAi.Sys.regression_line_rewritten_later",
+            "GitAi.Sys.regression_fixup_person_commit_next", "GitAi.Sys.regression_reorder_person_commit_first", "GitAi.Sys.regression_cherry_pick_ai_line_already_upstream",
             "GitAi.Sys.aborted_is_identity", "GitAi.Sys.stash_roundtrip_partial", "GitAi.Sys.regression_stash_upstream_above",
             "GitAi.Sys.rspecRun_st", "GitAi.RJ.fresh_operation_uses_its_own_head", "GitAi.RJ.continuation_keeps_the_open_start",
             "GitAi.RJ.hasActiveStart_iff", "GitAi.RJ.extracted_decisions_sound"]
@@ -653,10 +654,75 @@ class Sc:
             self.check_tip("after add + edit + checkout -- f + commit")
         return which
 
+    def t_fixed_pairing(self, which):
+        """witnesses of the repaired copy of a source note onto the rewritten commit AT THE SAME POSITION of the
+        range (74aa63f9, rebase_authorship.rs:note_carried_over_without_lines; Lean: regression_fixup_person_commit_next,
+        regression_reorder_person_commit_first, regression_cherry_pick_ai_line_already_upstream; the replay pairs source and new commits by position, oldest first). A rewritten commit in which the
+        replay found no AI line got the raw note of its positional partner, line numbers included; after `fixup` /
+        `squash` (two source commits become one new commit) and after a reorder the partner is another change, and
+        its line numbers landed on whatever the new commit put there:
+        fixup|squash-person-commit-next   feat 0: session 1 adds a line; feat 1: session 2 adds a line below it
+                                          (note: line 6); feat 2: a person adds a line between them (line 6 of that
+                                          commit); `fixup`/`squash` feat 1 into feat 0: new commits [feat 0+1, feat 2],
+                                          the partner of the new feat 2 is the source feat 1
+        reorder-person-commit-first       feat 0: session 2 adds line 6; feat 1: a person adds lines 4-7 higher up;
+                                          the two are swapped: the partner of the new feat 1 is the source feat 0
+        Upstream changes another file only (the tracked file is the same, so the line numbers collide).
+        cherry-pick-ai-line-already-upstream   the same copy in rewrite_authorship_after_cherry_pick, with the RIGHT partner:
+                                          the picked commit adds a person's line (line 4) and, further down, session 1's
+                                          line (note: line 7); upstream has typed that very line already (a person: the text
+                                          is theirs now) below three new lines at the top. The new commit adds the person's
+                                          line only - at line 7 - and the replay finds no AI line in it."""
+        self.base(nfiles=1)
+        p = self.files[0]
+        self.upmode = "other-file"
+        self.git("switch", "-q", "-c", "feature")
+        if which.startswith("cherry-pick"):
+            self.upmode = "above"
+            self.put("human", p, 3, ["Y2 person"]); self.put("s1", p, 6, ["Y1 ai one"])
+            sha = self.commit("feat 0")
+            self.git("switch", "-q", "main")
+            self.put("human", p, 0, ["U1 upstream", "U2 upstream", "U3 upstream"]); self.put("human", p, 8, ["Y1 ai one"])
+            self.commit("up")
+            orig = self.r.head()
+            if self.git("cherry-pick", sha) == 0:
+                self.mrec("cherryPick", src="feature", skip=0, news=self.news_since(orig))
+            else:
+                self.git("cherry-pick", "--abort")
+                self.model_ok = False
+                self.failures.append(("regression-scenario-did-not-run", {"which": which, "log": self.log[-4:]}))
+            self.check_tip("after cherry-pick")
+            return which
+        if which.startswith("reorder"):
+            self.put("s2", p, 5, ["Y1 ai two"]); self.commit("feat 0")
+            self.put("human", p, 3, ["Y2 person", "Y3 person", "Y4 person", "Y5 person"]); self.commit("feat 1")
+            n, mode = 2, "reorder"
+        else:
+            self.put("s1", p, 4, ["Y1 ai one"]); self.commit("feat 0")
+            self.put("s2", p, 5, ["Y2 ai two"]); self.commit("feat 1")
+            self.put("human", p, 5, ["Y3 person"]); self.commit("feat 2")
+            n, mode = 3, which.split("-")[0]
+        self.git("switch", "-q", "main")
+        self.put("human", "upstream.txt", 0, ["U1 upstream"]); self.commit("up")
+        self.git("switch", "-q", "feature")
+        script = os.path.join(self.env.root, "seq.py")
+        open(script, "w").write(SEQ_EDITOR)
+        rc = self.git("rebase", "-i", "main", env={"GIT_SEQUENCE_EDITOR": f"python3 {script} {mode}"})
+        if rc == 0:
+            self.mrec("rebase", onto="main", drop=n, news=self.news_since("main"))
+        else:
+            self.git("rebase", "--abort")
+            self.model_ok = False
+            self.failures.append(("regression-scenario-did-not-run", {"which": which, "log": self.log[-4:]}))
+        self.check_tip("after rebase")
+        return which
+
     def t_fixed(self, which):
         """witnesses of the two repaired defects of the content-replay path (3d512cdb, 5c3b3e4a)"""
         if which in FIXED_PENDING:
             return self.t_fixed_pending(which)
+        if which in FIXED_PAIRING:
+            return self.t_fixed_pairing(which)
         self.base(nfiles=1)
         p = self.files[0]
         self.upmode = "above"
@@ -745,7 +811,8 @@ open(path, "w").write("\\n".join(lines))
 '''
 
 FIXED_PENDING = ["stash-after-partial-commit", "stage-edit-checkout"]
-FIXED = ["mixed-block-rebase", "mixed-block-cherry-pick", "rewritten-later-drop", "rewritten-later-keep", "rewritten-later-drop-human"] + FIXED_PENDING
+FIXED_PAIRING = ["fixup-person-commit-next", "squash-person-commit-next", "reorder-person-commit-first", "cherry-pick-ai-line-already-upstream"]
+FIXED = ["mixed-block-rebase", "mixed-block-cherry-pick", "rewritten-later-drop", "rewritten-later-keep", "rewritten-later-drop-human"] + FIXED_PENDING + FIXED_PAIRING
 
 TEMPLATES = [("fixed:" + w, (lambda w: lambda s: s.t_fixed(w))(w)) for w in FIXED] + [
     ("rebase", lambda s: s.t_rebase()), ("rebase-onto", lambda s: s.t_rebase(onto=True)),
@@ -805,7 +872,8 @@ def full_sig(fam, sig, d):
       that later session in the rebased version of the earlier commit (tokens of the final state survive
       the diff chain).
     Blocks of several authors and AI lines rewritten later in the range were repaired in /repo
-    (3d512cdb, 5c3b3e4a): no classifier for them any more, they are reported as violations."""
+    (3d512cdb, 5c3b3e4a), and so was the raw copy of the positional partner's note onto a rewritten commit
+    without AI lines (74aa63f9; squash / fixup / reorder): no classifier for them, they are reported as violations."""
     if sig == "human-tweak-of-ai-line-still-ai":
         return sig
     base = fam.split("+tail-")[0]
@@ -937,7 +1005,7 @@ def phase(res, seeds, threads=16, fixed=False):
 
 def run(tier, seed):
     res = C.Result(PROP, tier, seed)
-    res.rule = ("end-to-end: 7 fixed regression scenarios — 5 of the content-replay path (block of several authors through rebase / cherry-pick; a line rewritten by a later commit of the range, kept / dropped / written by a person) and 2 of pending AI lines (plain `git stash` after a partial commit of another file; `git checkout -- f` after staging an AI line and editing further) — run first, then 25 scenario templates (rebase plain/--onto/-i reorder|squash|fixup|drop, conflict continue|abort|skip, "
+    res.rule = ("end-to-end: 11 fixed regression scenarios — 5 of the content-replay path (block of several authors through rebase / cherry-pick; a line rewritten by a later commit of the range, kept / dropped / written by a person), 2 of pending AI lines (plain `git stash` after a partial commit of another file; `git checkout -- f` after staging an AI line and editing further) and 4 of the note a rewritten commit gets when the replay finds no AI line in it (`rebase -i` with fixup / squash of the commit before a person's commit, a reorder that puts a person's commit first, a cherry-pick whose AI line upstream already has: the raw note of the source commit at the same position must not bring its line numbers) — run first, then 25 scenario templates (rebase plain/--onto/-i reorder|squash|fixup|drop, conflict continue|abort|skip, "
                 "cherry-pick single|range|-n, amend, merge --squash, reset --soft|--mixed + recommit, stash/pop with upstream "
                 "changes, switch/checkout -m carrying work, failing and dry-run operations, a real rebase after a no-op or aborted one) with randomised edits, sessions and "
                 "upstream change positions (other file, above, below, both); non-trivial = more than 4 executed steps")
